@@ -9,6 +9,7 @@ import warnings
 
 import networkx as nx
 import numpy as np
+import pandas as pd
 from hypothesis import strategies as st
 
 from _gettsim.interface import FunctionsAndColumnsOverlapWarning, compute_taxes_and_transfers
@@ -188,6 +189,30 @@ def check_nodes(df, date, chosen, rounding, pairs, stats=None, n_perturb=3):
                 fails.append(core.Failure(f"no-warning:{n}", f"{date}: column {n} overrides a rule but no FunctionsAndColumnsOverlapWarning names it"))
         diffs = compare.compare_frames(base, res, key_base=key, key_other=key, columns=targets,
                                        check_dtype=False)
+        if diffs and any(n not in functions and base[n].dtype.kind == "f" for n in grp):
+            # A supplied *derived* column (time-unit variant, automatic sum) makes its siblings be derived
+            # from it (y = d * 365.25 instead of the sum of yearly amounts), which is the same number only
+            # up to floating-point rounding (C13); a statutory rounding step or a threshold downstream
+            # turns one ulp into a whole euro when the amount sits exactly on the grid.  Such a case says
+            # nothing about C05: if moving the supplied values by one ulp up or down changes the differing
+            # columns as well, the case is ill-conditioned and counted, not reported.
+            cols = [d_["column"] for d_ in diffs]
+            sensitive = False
+            for direction in (np.inf, -np.inf):
+                sup = {n: (pd.Series(np.nextafter(base[n].to_numpy(), direction)) if n not in functions and base[n].dtype.kind == "f" else base[n])
+                       for n in grp}
+                try:
+                    res2, _ = run_with(df, date, sup, targets, rounding)
+                except Exception:  # noqa: BLE001
+                    sensitive = True
+                    break
+                if compare.compare_frames(res, res2, key_base=key, key_other=key, columns=cols, check_dtype=False):
+                    sensitive = True
+                    break
+            if sensitive:
+                if stats is not None:
+                    stats.append(("ulp-sensitive:" + tag, False, False))
+                diffs = []
         if diffs:
             d = diffs[0]
             fails.append(core.Failure(f"value:{tag}->{d['column']}" if len(diffs) else "",
@@ -229,7 +254,9 @@ def oracle(case, date, sh, ctx):
     fails = check_nodes(pop.df, date, chosen, rounding, pairs, stats, n_perturb=N_PERTURB[ctx["tier"]])
     pdg = core.digest([pop.df["p_id"].tolist(), pop.df["bruttolohn_m"].tolist()])
     for n, desc, const in stats:
-        if n.startswith("perturbed"):
+        if n.startswith("ulp-sensitive:"):
+            sh.classes["derived-column-case-ill-conditioned(one ulp changes the outcome)"] += 1
+        elif n.startswith("perturbed"):
             sh.classes["perturbed:both-ways-raise" if const else
                        ("perturbed:changes-other-nodes" if desc else "perturbed:no-other-node-changes")] += 1
         elif n.startswith("minimal:"):
